@@ -1,4 +1,5 @@
 import Poly.Proofs.SchemaP2P
+import Poly.Proofs.SchemaLenient
 import Poly.Generated.CodecInventory
 /-!
 # C05 — Peer-to-peer frames are integrity-checked and round-trip
@@ -111,6 +112,43 @@ theorem accepted_payload_or_checksum_collision (magic : UInt32) (K : Bytes → O
     (hsum : hdrSum bs = checksum H p) (m : Payload) (len : Nat) (rest : Bytes)
     (h : readMessage magic K H bs = .ok (m, len, rest)) : (hdrBody bs).take len = p ∨ Collision4 H :=
   accepted_payload_or_collision magic K H bs p hsum m len rest h
+
+/-- Every single-byte corruption of a written frame outside the 12-byte command field is rejected, or exhibits a collision
+of the 32-bit checksum: magic bytes (wrong magic), length bytes (oversize, short, or a shorter payload with the same
+checksum), checksum bytes (mismatch), payload bytes (another payload with the same checksum). The command field is excluded
+because the checksum does not cover the header: `ping` and `pong` differ in one byte and carry the same payload format. -/
+theorem single_byte_corruption_rejected (magic : UInt32) (K : Bytes → Option Bytes) (H : Bytes → Bytes) (hH : HashLongEnough H)
+    (k : Kind) (p : Bytes) (hp : p.length ≤ MAX_PAYLOAD_LEN) (i : Nat) (b : UInt8)
+    (hi : i < (frameOf magic H k p).length) (hb : (frameOf magic H k p)[i]? ≠ some b) (hcmd : i < 4 ∨ 16 ≤ i) :
+    (∀ res, readMessage magic K H ((frameOf magic H k p).set i b) ≠ .ok res) ∨ Collision4 H :=
+  single_byte_corruption magic K H k p hp (checksum_len H hH p) i b hi hb hcmd
+
+/-- the header is indeed outside the checksum: one changed command byte turns a ping frame into a pong frame -/
+theorem ping_pong_differ_in_one_command_byte (magic : UInt32) (H : Bytes → Bytes) (p : Bytes) :
+    (frameOf magic H .ping p).set 5 0x6f = frameOf magic H .pong p := by
+  have h4 : (wU32 magic).length = 4 := wU32_length magic
+  simp only [frameOf, List.append_assoc]
+  rw [List.set_append, if_neg (by omega), h4]
+  rfl
+
+/-! ### the field-after-field decoders
+
+`HeadersReq`, `BlocksReq`, `DataReq`, `Ping`/`Pong`, `NotFound`, the entries of `Addr`, the head of `Inv`, the fixed part of
+`Version` (up to `IsConsensus`, where eof is tested) and `ConsensusPayload.deserializationUnsigned` read every field and test
+only the last eof flag. That control flow (`Ty.lenient`) accepts exactly what the strict product schema accepts. -/
+
+def versionHeadTy : Ty :=
+  lf .u32 ⊗ lf .u64 ⊗ lf .i64 ⊗ lf .u16 ⊗ lf .u16 ⊗ lf .u16 ⊗ lf (.fixed 32) ⊗ lf .u64 ⊗ lf .u64 ⊗ lf .u8 ⊗ lf .bool
+def consensusUnsignedTy : Ty := lf .u32 ⊗ lf (.fixed 32) ⊗ lf .u32 ⊗ lf .u16 ⊗ lf .u32 ⊗ lf .varbytes
+def invHeadTy : Ty := lf .u8 ⊗ lf .u32
+
+theorem eof_tested_once_decoders_are_strict (K : Bytes → Option Bytes) (bs : Bytes) :
+    hdrReqTy.decLenient bs = some (hdrReqTy.dec K bs) ∧ dataReqTy.decLenient bs = some (dataReqTy.dec K bs) ∧
+    peerAddrTy.decLenient bs = some (peerAddrTy.dec K bs) ∧ invHeadTy.decLenient bs = some (invHeadTy.dec K bs) ∧
+    versionHeadTy.decLenient bs = some (versionHeadTy.dec K bs) ∧
+    consensusUnsignedTy.decLenient bs = some (consensusUnsignedTy.dec K bs) :=
+  ⟨Ty.decLenient_eq K _ (by decide) bs, Ty.decLenient_eq K _ (by decide) bs, Ty.decLenient_eq K _ (by decide) bs,
+   Ty.decLenient_eq K _ (by decide) bs, Ty.decLenient_eq K _ (by decide) bs, Ty.decLenient_eq K _ (by decide) bs⟩
 
 /-- No payload decoder preallocates from an unbounded wire count. -/
 theorem payload_schemas_no_unbounded_prealloc :
